@@ -66,6 +66,7 @@ func checkC08(c *Ctx, r *Result, tier string) {
 	c08Templates(c, r, gr)
 	c08StringKind(c, r)
 	c08VerifyBeforeWrite(c, r)
+	c08CompareCoverage(c, r)
 }
 
 // guardSite describes where the printer decides about brackets.
@@ -535,3 +536,119 @@ func c08VerifyBeforeWrite(c *Ctx, r *Result) {
 }
 
 var _ = types.Typ
+
+// ---- R08e: the tree comparison of the format guard covers every field evaluation depends on -----
+
+// fields of LexToken the evaluator reads without their value influencing the result of a program;
+// one line of reason each. Everything else the interpreter reads from a token must be compared.
+var r08eNotSemantic = map[string]string{
+	"Pos":            "position: differs by design after formatting; used in messages only",
+	"Lline":          "position: differs by design after formatting; messages, breakpoints",
+	"Lpos":           "position: differs by design after formatting; messages only",
+	"Lsource":        "source label: the same file",
+	"PrefixNewlines": "layout: what the formatter is allowed to change",
+	"ID":             "determined by the node kind (astNodeMap is keyed by ID and fixes Name), which is compared",
+	"Identifier":     "read only to copy the token of an identifier into a new node for error reporting (rt_identifier.go); determined by ID and Val",
+}
+
+func c08CompareCoverage(c *Ctx, r *Result) {
+	node := c.NamedType("parser", "ASTNode")
+	tok := c.NamedType("parser", "LexToken")
+	if node == nil || tok == nil {
+		r.Undecide("R08e: parser.ASTNode / parser.LexToken not found")
+		return
+	}
+	fieldOf := func(v ssa.Value) (*types.Named, string) {
+		switch x := v.(type) {
+		case *ssa.UnOp:
+			if fa, ok := x.X.(*ssa.FieldAddr); ok && x.Op == token.MUL {
+				if n := namedOf(fa.X.Type()); n != nil {
+					return n, fieldName(derefType(fa.X.Type()), fa.Field)
+				}
+			}
+		case *ssa.Field:
+			if n := namedOf(x.X.Type()); n != nil {
+				return n, fieldName(x.X.Type(), x.Field)
+			}
+		}
+		return nil, ""
+	}
+	// required: token fields read by the interpreter
+	required := map[string]bool{}
+	for _, fn := range c.ModFuncs() {
+		if c.PkgOf(fn) != "interpreter" {
+			continue
+		}
+		allInstrs(fn, func(in ssa.Instruction) {
+			if v, ok := in.(ssa.Value); ok {
+				if n, f := fieldOf(v); n == tok && f != "" && r08eNotSemantic[f] == "" {
+					required[f] = true
+				}
+			}
+		})
+	}
+	r.Floor("R08e-required-fields", len(required), 2)
+	// comparators: functions of cli/tool taking two trees
+	n := 0
+	for _, fn := range c.ModFuncs() {
+		if c.PkgOf(fn) != "cli/tool" || fn.Signature.Params().Len() < 2 {
+			continue
+		}
+		if namedOf(fn.Signature.Params().At(0).Type()) != node || namedOf(fn.Signature.Params().At(1).Type()) != node {
+			continue
+		}
+		n++
+		key := c.FuncKey(fn)
+		rs := c.Reachable([]*ssa.Function{fn}, func(f *ssa.Function) bool { return c.PkgOf(f) != "cli/tool" && c.PkgOf(f) != "parser" })
+		comparedTok := map[string]bool{}
+		comparedNode := map[string]bool{}
+		for f := range rs.Set {
+			allInstrs(f, func(in ssa.Instruction) {
+				bo, ok := in.(*ssa.BinOp)
+				if !ok || (bo.Op != token.EQL && bo.Op != token.NEQ) {
+					return
+				}
+				x, y := bo.X, bo.Y
+				// len(a.Children) == len(b.Children)
+				if cx, ok := x.(*ssa.Call); ok && isBuiltinCall(cx, "len") {
+					if cy, ok := y.(*ssa.Call); ok && isBuiltinCall(cy, "len") {
+						x, y = cx.Call.Args[0], cy.Call.Args[0]
+					}
+				}
+				n1, f1 := fieldOf(x)
+				n2, f2 := fieldOf(y)
+				if n1 == nil || n1 != n2 || f1 != f2 {
+					return
+				}
+				if n1 == tok {
+					comparedTok[f1] = true
+				}
+				if n1 == node {
+					comparedNode[f1] = true
+				}
+			})
+		}
+		var missing []string
+		for f := range required {
+			if !comparedTok[f] {
+				missing = append(missing, "LexToken."+f)
+			}
+		}
+		for _, f := range []string{"Name", "Children"} {
+			if !comparedNode[f] {
+				missing = append(missing, "ASTNode."+f)
+			}
+		}
+		sort.Strings(missing)
+		site := key + "#compared-fields"
+		pos := c.Pos(fn.Pos())
+		if len(missing) > 0 {
+			r.Instance("R08e", site, pos, "finding", "not compared: "+strings.Join(missing, ", "), true)
+			r.Report(Finding{Rule: "R08e", Site: site, Pos: pos,
+				Msg: fmt.Sprintf("%s, the tree comparison that gates the in-place write, does not compare %s although the evaluator's result depends on it: a formatting that changes it (e.g. a raw string printed as an interpolating one) is accepted and written", key, strings.Join(missing, ", "))})
+		} else {
+			r.Instance("R08e", site, pos, "ok", fmt.Sprintf("compares node kind, child count and every token field evaluation depends on (%s)", keysOf(required)), true)
+		}
+	}
+	r.Floor("R08e", n, 1)
+}
